@@ -249,6 +249,10 @@ impl PoolImpl {
             .remove(parent)
             .unwrap_or_default()
         {
+            // the child's slot may have been decided and pruned in the meantime
+            if child_slot < self.first_unpruned_slot() {
+                continue;
+            }
             if let Some(output) = self
                 .slot_state(child_slot)
                 .notify_parent_certified(child_hash)
